@@ -659,6 +659,35 @@ fn make_wide(d: &mut Dec, ctx: &mut Ctx) -> Value {
         if op.is_cmp() && d.chance(64) {
             b = a;
         }
+        if op != Op::Neg && d.chance(26) {
+            // both operands are the SAME variable (x / x, x - x, x == x ..), zero included: x / x fails for x == 0
+            let a = if op == Op::Div && d.chance(110) { 0 } else { a };
+            let la = safe_lit(k, a);
+            let rt = if op.is_cmp() { "bool" } else { t };
+            let expr = if d.bool() {
+                helpers.push_str(&format!("fn s{i}(p: {t}) -> {rt} {{\n    p {} p\n}}\n\n", op.text()));
+                format!("s{i}({la})")
+            } else {
+                body.push_str(&format!("    let a{i}: {t} = {la};\n"));
+                format!("a{i} {} a{i}", op.text())
+            };
+            labels.push("form:same-operand".into());
+            ops.push(format!("{} {} same", a, op.text()));
+            body.push_str(&format!("    let _ = string_println({rt}_to_string({expr}));\n"));
+            nontrivial = true;
+            match eval(k, op, a, a) {
+                R::Int(v) => out.push_str(&format!("{v}\n")),
+                R::Bool(v) => out.push_str(&format!("{v}\n")),
+                R::DivZero => {
+                    divzero = true;
+                    labels.push("result:divzero".into());
+                    labels.push("form:same-operand-zero".into());
+                    body.push_str("    let _ = string_println(\"after\");\n");
+                    break;
+                }
+            }
+            continue;
+        }
         let form = d.below(7);
         if form >= 5 && op != Op::Neg && !op.is_cmp() {
             // compound: (a op b) op2 c, or through a helper function, intermediate wrap included
